@@ -1359,6 +1359,11 @@ func c12Exec(raw json.RawMessage) (*Case, error) {
 	mode := in.Inj.Mode
 	if in.Kind == "mux" {
 		mode = "scenario"
+		for _, c := range in.Cmds {
+			if c.Op == "hold" {
+				mode = "scenario-hold" // a handler call is parked while other goroutines move
+			}
+		}
 	}
 	if in.Kind == "mux_stress" {
 		mode = "stress"
